@@ -355,6 +355,50 @@ def _s4(program, res):
             res.fail_at("C13-S4", w, "nary-nonassociative", "a non-associative operator is collected into an n-ary expression", same[0])
 
 
+def _s7_call_forms(program, res):
+    """f(x, …) with f the name of a Term method has to go through that method (which checks how many and which arguments it takes): building the
+    expression directly lets round(a, 1) or shift(a, 0) through, and SQL drops the extra argument.  The argument list of the grammar ends in an
+    optional item (a trailing comma is legal Python): its empty place is None and must not be walked"""
+    w = program.func("parse_by_lark", "_walk_lark_tree")
+    inner = [n for n in ast.walk(w.node) if isinstance(n, ast.FunctionDef) and n.name == "_r_walk_lark_tree"]
+    if not inner:
+        raise AnalysisError("anchor vanished: _walk_lark_tree._r_walk_lark_tree")
+    fn = inner[0]
+    direct = [c for c in ast.walk(fn) if isinstance(c, ast.Call) and (dotted_name(c.func) or "").endswith("Expression")
+              and any(kw.arg == "op" and isinstance(kw.value, ast.Name) for kw in c.keywords) and any(kw.arg == "args" for kw in c.keywords)]
+    if not direct:
+        raise AnalysisError("_r_walk_lark_tree: the construction Expression(op=<name>, args=<args>) of the function-call form was not found")
+    parents = {}
+    for n in ast.walk(fn):
+        for ch in ast.iter_child_nodes(n):
+            parents[ch] = n
+    for c in direct:
+        # an enclosing block that first tries the method of that name
+        blk = parents.get(c)
+        while blk is not None and not isinstance(blk, (ast.If, ast.FunctionDef)):
+            blk = parents.get(blk)
+        scope = blk.orelse if isinstance(blk, ast.If) and any(c in list(ast.walk(x)) for x in blk.orelse) else (blk.body if blk is not None else [])
+        dispatches = any(isinstance(x, ast.Call) and dotted_name(x.func) == "getattr" and len(x.args) >= 2 and "Term" in unparse(x.args[0]) for st in scope for x in ast.walk(st)) \
+            and any(isinstance(x, ast.Return) and isinstance(x.value, ast.Call) and isinstance(x.value.func, ast.Call) and dotted_name(x.value.func.func) == "getattr"
+                    for st in scope for x in ast.walk(st))
+        if dispatches:
+            res.ok("C13-S6", "the function form f(x, …) of a Term method is handed to the method x.f(…)")
+        else:
+            res.fail_at("C13-S6", w, "function-form-bypasses-method",
+                        f"`{unparse(c)[:70]}` builds the expression of f(x, …) directly, past the argument checks of the Term method f: round(a, 1) is accepted and SQLite computes "
+                        f"ROUND(a) (1.0, -2.0, 1.0, 4.0 where Python and Pandas give 1.3, -2.3, 0.6, 4.4); a.round(1) is refused", c)
+    comps = [c for c in ast.walk(fn) if isinstance(c, ast.ListComp) and isinstance(c.generators[0].iter, ast.Name) and c.generators[0].iter.id == "raw_args"]
+    if not comps:
+        raise AnalysisError("_r_walk_lark_tree: the walk over the call's arguments (raw_args) was not found")
+    for c in comps:
+        if any(isinstance(i, ast.Compare) and isinstance(i.ops[0], ast.IsNot) and isinstance(i.comparators[0], ast.Constant) and i.comparators[0].value is None for i in c.generators[0].ifs):
+            res.ok("C13-S6", "the empty place a trailing comma leaves in an argument list is skipped")
+        else:
+            res.fail_at("C13-S6", w, "argument-placeholder-walked",
+                        "every child of the argument list is walked, the None that the grammar's optional last item leaves included: `abs(a,)`, `a.if_else(1, 2,)` — legal Python — "
+                        "raise ValueError('unexpected lark parse type: NoneType')", c)
+
+
 def _s6(program, res):
     """Tree-shape agreement between grammar and walker: lark replaces a `?rule` node that has a single child by that child, so
     a walker branch may unpack `<child>.children` only where the grammar puts a rule that always keeps its own node, or after
@@ -533,6 +577,7 @@ def run(program, res, tier):
     _s4(program, res)
     res.rule("C13-S6", "the walker unpacks a child's children only where the grammar guarantees the child keeps its own node (or after testing its kind)")
     _s6(program, res)
+    _s7_call_forms(program, res)
     res.rule("C13-S7", "every operator a Term method can build prints as text the walker accepts")
     printable_ops_rule(program, res)
     printable_literals_rule(program, res)
